@@ -18,8 +18,11 @@ pub struct Path {
 
 impl Path {
     /// Creates the default Ethereum HD path for the specified account index.
-    pub fn for_index(index: usize) -> Self {
-        format!("m/44'/60'/0'/0/{index}").parse().unwrap()
+    ///
+    /// Returns an error if the account index is not a valid BIP-0032 path
+    /// component, that is if it is not less than 2^31.
+    pub fn for_index(index: usize) -> Result<Self> {
+        format!("m/44'/60'/0'/0/{index}").parse()
     }
 
     /// Returns an iterator over the path components.
